@@ -66,6 +66,12 @@ func (w *workingState[S, T]) Rebase(
 
 	var invalidated []T
 
+	// The transactions that still apply, in order.
+	// Invalidated entries are dropped by position, not by value:
+	// an equal transaction elsewhere in the list may have applied,
+	// and its effect is already part of w.curState.
+	kept := make([]T, 0, len(w.Txs))
+
 	for _, tx := range w.Txs {
 		newState, err := w.addTx(ctx, w.curState, tx)
 		if err != nil {
@@ -84,12 +90,13 @@ func (w *workingState[S, T]) Rebase(
 		// We have new state from successfully applying this transaction.
 		w.curState = newState
 		w.isUpdated = true
+		kept = append(kept, tx)
 	}
 
 	// All transactions were applied or invalidated.
 	// Prune the invalidated transactions, if any exist.
 	if len(invalidated) > 0 {
-		w.Txs = slices.DeleteFunc(w.Txs, w.txDeleter(ctx, invalidated))
+		w.Txs = kept
 	}
 
 	return rebaseResponse[T]{Invalidated: invalidated}
